@@ -101,9 +101,15 @@ enum Hist {
     DirectDataThenRun,
     /// RENUM, then RUN: RESTORE n follows its line (error line numbers are not compared)
     RenumThenRun,
+    /// direct READs until OUT OF DATA (and once more), DATA appended behind the old end, READ
+    OverReadThenAppend,
+    /// two direct READs, NEW, the program typed again, a direct READ
+    ReadNewRetype,
 }
 
-const HISTS: [Hist; 11] = [
+const HISTS: [Hist; 13] = [
+    Hist::OverReadThenAppend,
+    Hist::ReadNewRetype,
     Hist::RenumThenRun,
     Hist::DirectDataThenRun,
     Hist::RunThenRunFirstLine,
@@ -128,6 +134,75 @@ fn judge(p: &Prog, h: Hist, ctx: &mut Ctx) {
         _ => "RUN",
     });
     if !ctx.begin(&desc) {
+        return;
+    }
+    // ---- two histories judged without the reference interpreter
+    if h == Hist::OverReadThenAppend || h == Hist::ReadNewRetype {
+        let r = guard(|| {
+            let mut s = Session::with(200, 30);
+            for l in p.render() {
+                s.enter(&l);
+            }
+            s.take();
+            let is = |ev: &[crate::driver::Ev], code: &str| ev.iter().any(|e| matches!(e, crate::driver::Ev::Err(v) if v.iter().any(|x| x.code == code)));
+            if h == Hist::OverReadThenAppend {
+                // read past the end (twice), append constants behind the old end, read on
+                let mut over = false;
+                for _ in 0..14 {
+                    s.enter("READ Q#");
+                    let ev = s.take();
+                    if is(&ev, "OUT OF DATA") {
+                        over = true;
+                        break;
+                    }
+                    if ev.iter().any(|e| matches!(e, crate::driver::Ev::Err(_))) {
+                        break;
+                    }
+                }
+                if !over {
+                    return None;
+                }
+                s.enter("READ Q#");
+                s.take();
+                s.enter("64000 DATA 71,72");
+                s.take();
+                s.enter("READ Q#:PRINT Q#;");
+                Some((render_impl(&s.take()).0, " 71 ".to_string()))
+            } else {
+                // consume two constants, NEW, type the program again: the first direct READ starts at the first constant
+                s.enter("READ Q$:READ Q$");
+                s.take();
+                s.enter("NEW");
+                s.take();
+                for l in p.render() {
+                    s.enter(&l);
+                }
+                s.take();
+                s.enter("READ Q$:PRINT \"<\";Q$;\">\";");
+                let got = render_impl(&s.take()).0;
+                let mut f = Session::with(200, 30);
+                for l in p.render() {
+                    f.enter(&l);
+                }
+                f.take();
+                f.enter("READ Q$:PRINT \"<\";Q$;\">\";");
+                Some((got, render_impl(&f.take()).0))
+            }
+        });
+        match r {
+            Err(pn) => ctx.violation("READ-DATA/panic", pn),
+            Ok(None) => ctx.skip("direct numeric READs do not reach OUT OF DATA for this program"),
+            Ok(Some((got, want))) => {
+                ctx.nontrivial(hash64(&(&want, h == Hist::ReadNewRetype)));
+                let ok = if h == Hist::OverReadThenAppend { got.contains(&want) } else { got == want };
+                if !ok {
+                    ctx.violation(
+                        if h == Hist::OverReadThenAppend { "READ-DATA/pointer-moved-by-a-failed-READ" } else { "READ-DATA/pointer-not-rewound-by-NEW" },
+                        format!("{} : expected {:?}, got {:?}", desc, want, got),
+                    );
+                }
+            }
+        }
         return;
     }
     // ---- reference: what the LAST step must show
@@ -215,6 +290,7 @@ fn judge(p: &Prog, h: Hist, ctx: &mut Ctx) {
                 s.enter("READ Q");
                 s.enter("RENUM 1000,0,7");
             }
+            Hist::OverReadThenAppend | Hist::ReadNewRetype => unreachable!(),
             Hist::DirectDataThenRun => {
                 s.enter("RUN");
                 s.take();
